@@ -62,6 +62,14 @@ CLAIMS = {
          "KeyPool heap model (which operations share byte buffers) model-checked for independence, with the sharing-Neuter variant as negative control; the same module generates all operation histories of bounded depth on a pool of keys; they are replayed on real keys with EVERY live key observed after EVERY step; TLC trace validation checks each call's postcondition, the frame condition (other keys unchanged incl. a derivation probe) and that zeroing erased the four captured buffers",
          "model checking of the heap model plus TLC trace validation of enumerated and random histories",
          "verif hook VerifBuffers exposes the four backing slices"),
+ "C13": ("DESIGN.md §4 C13",
+         "TLA+ spec GCS: item value = floor(siphash * N*M / 2^64) on limb naturals, membership = value in the filter's value set; Match / MatchAny / ZipMatchAny / HashMatchAny answers of real filters over P=0..32, several M, N=0..100 and N up to 12000 (N*M >= 2^32), multisets with repeats, query sets around N/2, and planner-found non-members colliding modulo 2^32 are judged by TLC trace validation; MC_GCS cross-checks the verifying scanner against an independent encoder on the small scope",
+         "small-scope model checking of the codec definitions plus TLC trace validation of recorded filters and queries",
+         "SipHash as environment function; unary runs bounded"),
+ "C14": ("DESIGN.md §4 C14",
+         "the filter bytes are verified by a single scan (ScanFilter) that checks the prescribed unary quotient / terminator / P remainder bits MSB-first / zero padding for every sorted value -- byte equality with the BIP158-style encoding; N/P/NP serialisations as CompactSize concatenations; rebuilt filters identical; block filter builder content (outpoints of non-coinbase inputs + non-empty scripts, de-duplicated), key, P/M, filter hash and header; builder error latch histories",
+         "small-scope model checking (MC_GCS) plus TLC trace validation",
+         "as C13"),
 }
 
 NOT_YET = "check not built yet in this round; see DESIGN.md for the planned TLA+ model"
